@@ -508,6 +508,11 @@ class UpdateCollection(Message):
                         withdraws = b''
                     mp_unreach = mpurnlri
 
+            # nothing for this family in this pass (its withdraws are held back): an UPDATE
+            # without any route would be read as the IPv4 unicast End-of-RIB marker
+            if not (mp_unreach or mp_reach or withdraws or announced):
+                continue
+
             yield self._message(
                 UpdateCollection.prefix(withdraws) + UpdateCollection.prefix(mp_unreach + attr + mp_reach) + announced,
             )  # yield mpr/mpur per family
